@@ -44,6 +44,7 @@ class ProgGen:
         self.max_tx = max_tx
         self.values = values
         self.ts_mode = ts_mode
+        self.kind_weights = None
         self.modes = modes or [8, 2, 1]      # weights of rw / ro / wo at begin
         self.lines, self.exp = [], []
         self.tx = {}       # id -> dict(mode, closed, curs=set)
@@ -125,11 +126,12 @@ class ProgGen:
             i = rng.choice(cand)
             self.close_cursors_of(i)
             k = self.key() if rng.random() < 0.98 else "-"
-            kind = rng.choices(["set", "del", "sdel", "repl", "setat"], [10, 3, 2, 1, 2 if self.ts_mode else 0])[0]
+            kw = self.kind_weights or [10, 3, 2, 1, 2 if self.ts_mode else 0]
+            kind = rng.choices(["set", "del", "sdel", "repl", "setat"], kw)[0]
             if kind == "set":
                 self.emit("e2 set %d %s %s" % (i, k, self.val()))
             elif kind == "setat":
-                self.emit("e2 setat %d %s %s %d" % (i, k, self.val(), rng.randint(1, 50)))
+                self.emit("e2 setat %d %s %s %d" % (i, k, self.val(), rng.randint(1, 6) if self.kind_weights else rng.randint(1, 50)))
             elif kind == "repl":
                 self.emit("e2 repl %d %s %s" % (i, k, self.val()))
             else:
@@ -185,7 +187,11 @@ class ProgGen:
                 return
             i = rng.choice(cand)
             self.close_cursors_of(i)
-            self.emit("e2 %s %d" % (op, i))
+            a = self.emit("e2 %s %d" % (op, i))
+            if op == "rbsp" and a == "ok" and len(self.keys) <= 6 and self.tx[i]["mode"] != "wo":
+                # observe the restored pending writes at once
+                for k in self.keys:
+                    self.emit("e2 get %d %s" % (i, k))
         elif op in ("commit", "rollback", "drop"):
             cand = self.open_tx() if rng.random() < 0.95 else list(self.tx)
             if not cand:
@@ -344,6 +350,7 @@ def explore_profiles(ctx, pid, profiles, nontrivial, classify=None, n_quick=60, 
         opts = rng.choice(pf["opts"])
         g = ProgGen(rng, model, opts=opts, weights=pf.get("weights"), keys=pf.get("keys"), max_tx=pf.get("max_tx", 4),
                     values=pf.get("values"), ts_mode=pf.get("ts_mode", False), modes=pf.get("modes"))
+        g.kind_weights = pf.get("kind_weights")
         g.start()
         if "prologue" in pf:
             pf["prologue"](g)
